@@ -42,7 +42,8 @@ class PyFunc:
     @property
     def body(self):
         if self._body is None:
-            self._body = _expand_new_helpers(self)
+            from .canon import canon_body
+            self._body = canon_body(_expand_new_helpers(self))
         return self._body
 
     @property
